@@ -579,8 +579,8 @@ pub fn check_c13(c: &Case) -> Check {
             ou.extend(m.linked(1, x));
         }
         let ic = set.information_content().map_err(|e| format!("information_content failed: {e}"))?;
-        expect("set gene IC", ic.gene().to_bits(), ic_expected(m.recs[0].len(), gu.len()).to_bits())?;
-        expect("set omim IC", ic.omim_disease().to_bits(), ic_expected(m.recs[1].len(), ou.len()).to_bits())?;
+        expect("set gene IC", ic.gene(), ic_expected(m.recs[0].len(), gu.len()))?;
+        expect("set omim IC", ic.omim_disease(), ic_expected(m.recs[1].len(), ou.len()))?;
         // category counts
         let mut expc: BTreeMap<u32, usize> = BTreeMap::new();
         for &x in &members {
@@ -592,6 +592,69 @@ pub fn check_c13(c: &Case) -> Check {
         }
         let gotc: BTreeMap<u32, usize> = set.categories().iter().map(|(k, v)| (k.as_u32(), *v)).collect();
         expect(&format!("category counts of {:?}", m.idset(&members)), gotc, expc)?;
+    }
+    if c.facts.is_empty() && c.order == 0 && c.idmap == 0 && c.edges & 1 == 1 {
+        check_c13_flags(c)?;
+    }
+    Ok(())
+}
+
+/// obsolete flags and replacements cannot be set through the Builder: ontologies with them are loaded from the
+/// independent v3 encoder. Every (term, replacement) pair with and without the obsolete flag, and two terms sharing one
+/// replacement; every subset of terms as the set.
+fn check_c13_flags(c: &Case) -> Check {
+    let m = Model::new(c);
+    let n = m.n;
+    let mut patterns: Vec<Vec<(bool, u32)>> = vec![];
+    for o in 0..n {
+        let mut f = vec![(false, 0u32); n];
+        f[o].0 = true;
+        patterns.push(f);
+        for r in 0..n {
+            if r == o {
+                continue;
+            }
+            for obs in [true, false] {
+                let mut f = vec![(false, 0u32); n];
+                f[o] = (obs, m.ids[r]);
+                patterns.push(f.clone());
+                // a second term with the same replacement
+                let o2 = (0..n).find(|&x| x != o && x != r);
+                if let (Some(o2), true) = (o2, obs) {
+                    f[o2] = (true, m.ids[r]);
+                    patterns.push(f);
+                }
+            }
+        }
+    }
+    for flags in patterns {
+        let enc = Enc { version: 3, reverse: false, flags: flags.clone(), rename_term: None, rename_rec: None };
+        let ont = match load(&encode(c, &enc)) {
+            Ok(Ok(o)) => o,
+            _ => return Err(format!("ontology with flags {flags:?} does not load")),
+        };
+        for mask in 0..(1u32 << n) {
+            let members: BTreeSet<usize> = (0..n).filter(|k| mask >> k & 1 == 1).collect();
+            let ids_in = m.idset(&members);
+            let g = group_of(&ids_in);
+            let set = HpoSet::new(&ont, g.clone());
+            let what = format!("set {ids_in:?} in an ontology with (obsolete, replacement) = {flags:?}");
+            let exp_wo: BTreeSet<u32> = members.iter().filter(|&&x| !flags[x].0).map(|&x| m.ids[x]).collect();
+            let got: BTreeSet<u32> = set.without_obsolete().iter().map(|t| t.id().as_u32()).collect();
+            expect(&format!("without_obsolete of {what}"), got, exp_wo.clone())?;
+            let mut s3 = HpoSet::new(&ont, g.clone());
+            s3.remove_obsolete();
+            let got: Vec<u32> = s3.iter().map(|t| t.id().as_u32()).collect();
+            expect(&format!("remove_obsolete of {what}"), got, exp_wo.into_iter().collect::<Vec<u32>>())?;
+            let exp_rep: BTreeSet<u32> = members.iter().map(|&x| if flags[x].1 != 0 { flags[x].1 } else { m.ids[x] }).collect();
+            let got: Vec<u32> = set.with_replaced_obsolete().iter().map(|t| t.id().as_u32()).collect();
+            expect(&format!("with_replaced_obsolete of {what}"), got, exp_rep.iter().copied().collect::<Vec<u32>>())?;
+            let mut s4 = HpoSet::new(&ont, g.clone());
+            s4.replace_obsolete();
+            let got: Vec<u32> = s4.iter().map(|t| t.id().as_u32()).collect();
+            expect(&format!("replace_obsolete of {what}"), got, exp_rep.iter().copied().collect::<Vec<u32>>())?;
+            expect(&format!("len after replace_obsolete of {what}"), s4.len(), exp_rep.len())?;
+        }
     }
     Ok(())
 }
@@ -742,13 +805,15 @@ pub fn fact_sets(n: usize, thorough: bool) -> Vec<Vec<(u8, u32, u8)>> {
 }
 
 pub fn cases(thorough: bool, idmaps: &[u8], with_facts: bool) -> Vec<Case> {
-    let maxn = if thorough { 5 } else { 4 };
+    // without annotation facts the 5-term graphs are cheap enough for the quick tier
+    let big = thorough || !with_facts;
+    let maxn = if big { 5 } else { 4 };
     let mut out = vec![];
     for n in 1..=maxn {
         let np = pairs(n).len();
         for edges in 0..(1u32 << np) {
             for &idmap in idmaps {
-                for order in 0..(if thorough { 4 } else { 2 }) {
+                for order in 0..(if big { 4 } else { 2 }) {
                     if with_facts {
                         // at n = 5 the fact sets are thinned out in quick mode only
                         for f in fact_sets(n, thorough || n < 4) {
@@ -865,7 +930,7 @@ pub fn explore(prop: &str, thorough: bool) -> i32 {
                 "EXPLORE-OK property={prop} cases={} distinct_dags={} max_terms={} sample={sample}",
                 n + extra,
                 distinct.len(),
-                if thorough { 5 } else { 4 }
+                if thorough || !with_facts { 5 } else { 4 }
             );
             0
         }
@@ -1312,7 +1377,12 @@ pub fn check_c08(c: &Case) -> Check {
             if norm(&w) != norm(&reference) {
                 return Err(format!("a v{version} file (record order reversed: {reverse}) decodes to a different ontology than the one it describes:\n decoded:  {w}\n expected: {reference}"));
             }
-            let sweep = THOROUGH.load(std::sync::atomic::Ordering::Relaxed) || c.n < 4 || (c.edges % 8 == 7 && c.facts.len() % 2 == 1);
+            // the damage sweeps cost one decode per byte of the file: done on every case up to 3 terms, and on a fixed
+            // subset of the larger ones (more of them in the thorough tier)
+            let th = THOROUGH.load(std::sync::atomic::Ordering::Relaxed);
+            let sweep = c.n < 4
+                || (c.n == 4 && (if th { c.facts.len() != 4 || c.edges % 4 == 3 } else { c.edges % 8 == 7 && c.facts.len() % 2 == 1 }))
+                || (c.n == 5 && th && c.edges % 32 == 31 && c.facts.len() != 4);
             if c.order == 0 && !reverse && sweep {
                 // every proper prefix and small extensions must be rejected (error or documented panic), never returned
                 for cut in 0..bytes.len() {
